@@ -36,9 +36,9 @@ def evaluate(expr: str):
             f = ops1[token.value]
             n_stack.append(f(n1))
         else:
-            raise Exception('Invalid expression')
+            raise MathExpressionException('Invalid expression')
 
     if len(n_stack) > 1:
-        raise Exception('Invalid Expression (parity)')
+        raise MathExpressionException('Invalid Expression (parity)')
 
     return n_stack[0]
